@@ -296,6 +296,79 @@ func loadBaselineConsts(outDir string) map[string]uint64 {
 	return res
 }
 
+// loadBaselineShapes: for every field of the baseline record the number of variable summands (`-- + a + b`) its
+// return statement had
+func loadBaselineShapes(outDir string) map[string]int {
+	res := map[string]int{}
+	data, err := os.ReadFile(filepath.Join(outDir, "..", "..", "baseline", "Generated", "Cycles.lean"))
+	if err != nil {
+		return res
+	}
+	for _, line := range strings.Split(string(data), "\n") {
+		if strings.HasPrefix(line, "def driverConsts") {
+			break
+		}
+		f := strings.Fields(line)
+		if len(f) >= 3 && f[1] == ":=" {
+			n := 0
+			if i := strings.Index(line, "-- +"); i >= 0 {
+				n = strings.Count(line[i:], "+")
+			}
+			res[f[0]] = n
+		}
+	}
+	return res
+}
+
+// resolveDelegations: a function whose body became `return c.helper(...)` (its former body moved into a shared helper)
+// inherits the helper's return literals: the field F_i gets the literal of THE return statement of the helper that has
+// the same number of variable summands as F_i had (2 vs 3 + pageCross, 5 vs 6 + pageCross); all or nothing.
+func resolveDelegations(rets map[string][]retFact, deleg map[string]string, shapes map[string]int) {
+	for depth := 0; depth < 3; depth++ {
+		for name, call := range deleg {
+			if len(rets[name]) > 0 {
+				continue
+			}
+			callee := call
+			if i := strings.Index(callee, "("); i >= 0 {
+				callee = callee[:i]
+			}
+			if i := strings.LastIndex(callee, "."); i >= 0 {
+				callee = callee[i+1:]
+			}
+			if len(rets[callee]) == 0 {
+				continue
+			}
+			syn := []retFact{}
+			ok := true
+			for i := 0; ok; i++ {
+				shape, have := shapes[fmt.Sprintf("%s_%d", name, i)]
+				if !have {
+					break
+				}
+				var found *retFact
+				for k := range rets[callee] {
+					c := &rets[callee][k]
+					if len(c.extras) == shape {
+						if found != nil && found.lit != c.lit {
+							ok = false
+						}
+						found = c
+					}
+				}
+				if found == nil {
+					ok = false
+				} else {
+					syn = append(syn, *found)
+				}
+			}
+			if ok && len(syn) > 0 {
+				rets[name] = syn
+			}
+		}
+	}
+}
+
 // loadKnownConsts: the fields of Verif.CycleConsts (Verif/Impl/Consts.lean); nil when unreadable
 func loadKnownConsts(outDir string) map[string]bool {
 	data, err := os.ReadFile(filepath.Join(outDir, "..", "Impl", "Consts.lean"))
@@ -498,6 +571,7 @@ func doCpu(repo, outDir string) {
 	}
 
 	rets, deleg, problems := cpuReturns(fns)
+	resolveDelegations(rets, deleg, loadBaselineShapes(outDir))
 	for _, p := range problems {
 		fail("cpu.cycles", p)
 	}
